@@ -17,11 +17,24 @@ written here from the property text):
             any read.
   entry     the real `ksrsigner()` run up to its prompt (answer "no"): printed FILENAME / SHA-256 HEX /
             SHA-256 WORDS are those of the bytes parsed while the file changes between operations.
-  output    `output_skr_xml`, `output_trustanchor_xml`: logged digest = sha256 of the file content
-            actually written; nothing logged or written without a file name.
+  output    `output_skr_xml`, `output_trustanchor_xml` on the REAL file system (scratch directory inside /verif,
+            removed afterwards): to stdout (this is the document D) and to a path that BEFOREHAND does not exist /
+            is empty / holds a file 1 octet shorter / equally long / 1 octet longer / an earlier larger document of
+            the same kind / 300 kB of filler / the writer's own earlier output of a larger document (rehearsal, then
+            the real run).  The path is read back with the plain builtin open: logged digest and words = those of the
+            octets REALLY on disk afterwards, and those octets = D (no stale tail); nothing logged or written
+            without a file name.  The model (one truncating open, one write of D) is given D, not the file.
   config    `get_config`: logs the digest of a first read, parses a second read of the same descriptor
             (modelled as it is; what is / is not guaranteed is in C17.getConfig_*).
   table     `format_bundles_for_humans` on generated bundles vs the model vs an independent extraction.
+  tz        ENVIRONMENT INDEPENDENCE, every run: a sub-sample of table / entry / schedule / output runs again with the
+            time zone of the PROCESS switched (lib.ProcessTZ) to UTC, America/New_York, Australia/Lord_Howe,
+            Asia/Kolkata, Europe/Berlin; bundle times run through harness/tzenv.lattice() (January / July, turn of the
+            year, leap day, +-1 h / 30 min / 1 s around each zone's DST switches of 2025); KSR and SKR files with those
+            times in the three lexical forms the loader takes for UTC (`+00:00`, `Z`, no designator) go through
+            load_ksr / load_skr; `fmt_timestamp` / `fmt_bundle` (KSR-POLICY log lines); ksrsigner() to its prompt (stdout,
+            bundle table and EVERY log record); both writers.  Judged by integer calendar arithmetic on the file's own
+            text (ElementTree), compared with the UTC run and with the model (which only sees integers).
 
 impl violates the oracle -> failing input (VIOLATION); impl != model -> broken tie (disagreement).
 """
@@ -51,6 +64,8 @@ ASSUMPTIONS = [
     "chunked reads that continue at a non-zero position are served from the snapshot taken when the read started",
     "the XML parser is a parameter of the loader theorems (its own correctness is C12/C13); its answers are passed as oracle",
     "get_config reads its file twice through one descriptor; robustness against replacement is claimed (and proved) for KSR/SKR only",
+    "the loaders return bundles in the order (expiration, inception, id) (ksr/skr parse_utils); the file reader of stream 'tz' orders the file's bundles the same way on integers",
+    "the process time zone is switched with TZ + tzset (lib.ProcessTZ, which verifies that localtime follows); zones and DST switch instants from the system tz database, cross-checked against the published 2025 rules in harness/tzenv.py",
 ]
 TRUSTED = [
     "hashlib.sha256 as the hash oracle; the reference PGP word list in lean/KskmProofs/Lemmas/C17Reference.lean (read against the published table)",
@@ -1166,6 +1181,347 @@ def stream_table(res: Result, tier: str, driver_ok: bool, ref: list[tuple[str, s
             res.sample({"case": c["tag"], "impl": out["ok"][:3] if "ok" in out else out, "model": None if m is None else m["lines"][:3]})
 
 
+# ---- the file itself, read with a standards XML parser; instants as integers (no datetime object, no process zone)
+
+_STAMP = re.compile(r"^(\d{4})-(\d\d)-(\d\d)T(\d\d):(\d\d):(\d\d)(?:Z|\+00:00)?$")
+
+
+def file_stamp(text: str) -> int:
+    """xsd:dateTime of a KSR/SKR (UTC: `+00:00`, `Z` or no designator, which the loader documents as UTC) -> seconds since the epoch."""
+    import tzenv
+
+    m = _STAMP.match(text.strip())
+    if not m:
+        raise ValueError(f"file reader: timestamp {text!r}")
+    return tzenv.ts(*(int(x) for x in m.groups()))
+
+
+def file_bundles(xml: bytes) -> list[dict[str, Any]]:
+    """Request / response bundles of the document in the loader's documented order (expiration, inception, id)."""
+    import xml.etree.ElementTree as ET
+
+    root = ET.fromstring(xml)
+    out = []
+    for b in list(root.iter("RequestBundle")) + list(root.iter("ResponseBundle")):
+        keys = [(k.attrib["keyIdentifier"], int(k.attrib["keyTag"]), int(k.findtext("Flags") or "0")) for k in b.findall("Key")]
+        signers = {sg.attrib["keyIdentifier"] for sg in b.findall("Signature")}
+        out.append({"id": b.attrib["id"], "inception": file_stamp(b.findtext("Inception") or ""), "expiration": file_stamp(b.findtext("Expiration") or ""), "keys": keys, "signers": signers})
+    out.sort(key=lambda x: (x["expiration"], x["inception"], x["id"]))
+    return out
+
+
+def file_table_times(xml: bytes) -> list[tuple[str, str]]:
+    """(Inception, Expiration) columns the bundle table of this file has to show, row by row."""
+    import tzenv
+
+    return [(tzenv.iso_utc(b["inception"]), tzenv.iso_utc(b["expiration"])) for b in file_bundles(xml)]
+
+
+def file_table_rows(xml: bytes) -> list[dict[str, Any]]:
+    """Per row: the two time columns and the MULTISET of tag entries (the order inside a row is a set's iteration order)."""
+    import tzenv
+
+    rows = []
+    for b in file_bundles(xml):
+        entries = []
+        for ident, tag, flags in b["keys"]:
+            if not flags & 1:
+                entries.append(str(tag))
+            else:
+                entries.append(f"{tag}({ident})/" + ("R" if flags & 128 else "") + ("S" if ident in b["signers"] else "P"))
+        rows.append({"inception": tzenv.iso_utc(b["inception"]), "expiration": tzenv.iso_utc(b["expiration"]), "entries": sorted(entries)})
+    return rows
+
+
+def table_row_fields(line: str) -> dict[str, Any]:
+    f = line.split()
+    return {"inception": f[1], "expiration": f[2], "entries": sorted(t for col in f[3:] for t in col.split(",") if t)}
+
+
+_TIME_EL = re.compile(rb"(<(Inception|Expiration)>)([^<]*)(</(?:Inception|Expiration)>)")
+
+
+def restamp(xml: bytes, stamps: list[tuple[int, int]], form: str) -> bytes:
+    """The archived document with the i-th bundle's Inception / Expiration replaced by the given instants, written as
+    `form`: "+00:00", "Z" or "" (no designator).  Signature times are left alone (the loaders run with signature and
+    policy checks off here; what is looked at is which instants are parsed and shown)."""
+    import tzenv
+
+    seen = {"Inception": 0, "Expiration": 0}
+
+    def sub(m: re.Match[bytes]) -> bytes:
+        which = m.group(2).decode()
+        i = seen[which]
+        seen[which] += 1
+        if i >= len(stamps):
+            return m.group(0)
+        s = stamps[i][0 if which == "Inception" else 1]
+        return m.group(1) + (tzenv.iso_utc(s) + form).encode() + m.group(4)
+
+    return _TIME_EL.sub(sub, xml)
+
+
+def _tz_documents() -> list[dict[str, Any]]:
+    """KSR and SKR files whose bundle times run through tzenv.lattice() (ascending, so that the loader's order is the
+    document order), each in the three lexical forms the loader accepts for UTC."""
+    import tzenv
+
+    lat = [s for _l, s in tzenv.lattice()]
+    docs = []
+    for kind, base in (("ksr", KSR_FILE.read_bytes()), ("skr", SKR_FILE.read_bytes())):
+        n = len(re.findall(rb"<Inception>", base))
+        per_doc = 2 * n
+        for d, start in enumerate(range(0, len(lat), per_doc)):
+            chunk = lat[start : start + per_doc]
+            stamps = [(chunk[i], chunk[i + 1]) for i in range(0, len(chunk) - 1, 2)]
+            for form in ("+00:00", "Z", ""):
+                xml = with_id(restamp(base, stamps, form), f"tz-{kind}-{d}-{form or 'none'}")
+                docs.append({"name": f"{kind}:lattice-{d}:{form or 'no-designator'}", "kind": kind, "xml": xml, "form": {"+00:00": "plus-zero", "Z": "Z", "": "no-designator"}[form]})
+    return docs
+
+
+def _tz_bundle_sets() -> list[tuple[str, list[Any]]]:
+    import tzenv
+    from kskm.common.data import AlgorithmDNSSEC, Key, Signature, TypeDNSSEC
+    from kskm.ksr.data import RequestBundle
+    from kskm.ksr.load import request_from_xml
+    from kskm.skr.data import ResponseBundle
+    from kskm.skr.load import response_from_xml
+
+    def mk_key(ident: str, tag: int, flags: int) -> Any:
+        return Key.model_construct(key_identifier=ident, key_tag=tag, ttl=172800, flags=flags, protocol=3, algorithm=AlgorithmDNSSEC.RSASHA256, public_key=b"AQAB")
+
+    def mk_sig(ident: str, tag: int, t: datetime) -> Any:
+        return Signature(key_identifier=ident, ttl=172800, type_covered=TypeDNSSEC.DNSKEY, algorithm=AlgorithmDNSSEC.RSASHA256, labels=0, original_ttl=172800,
+                         signature_expiration=t, signature_inception=t, key_tag=tag, signers_name=".", signature_data=b"AAAA")
+
+    lat = tzenv.lattice()
+    sets: list[tuple[str, list[Any]]] = [
+        ("archived-ksr", list(request_from_xml(KSR_FILE.read_text()).bundles)),
+        ("archived-skr", list(response_from_xml(SKR_FILE.read_text()).bundles)),
+    ]
+    bundles = []
+    for i, (label, s) in enumerate(lat):
+        nxt = lat[(i + 1) % len(lat)][1]
+        inc = tzenv.aware(s) + timedelta(microseconds=(0, 0, 0, 1, 999999)[i % 5])
+        keys = {mk_key(f"Z{i}", 1000 + i, 256), mk_key("Kjqmt7v", 20326, 257), mk_key("Klajeyz", 19036, 385)}
+        cls = RequestBundle if i % 2 else ResponseBundle
+        kw: dict[str, Any] = {"id": f"lattice-{label}", "inception": inc, "expiration": tzenv.aware(nxt), "keys": keys, "signatures": {mk_sig("Kjqmt7v", 20326, inc)}}
+        if cls is RequestBundle:
+            kw["signers"] = None
+        bundles.append(cls.model_construct(**kw))
+    sets.append(("lattice", bundles))
+    return sets
+
+
+def _tz_observe(ref: list[tuple[str, str]], sets: list[tuple[str, list[Any]]], docs: list[dict[str, Any]], entry_scheds: list[tuple[str, list[bytes]]], config: Any, outputs: list[tuple[str, str, Any]], root: Path, zname: str) -> dict[str, Any]:
+    """Everything the stream looks at, produced by the REAL code under the CURRENT process zone."""
+    import kskm.ksr.load as kl
+    import kskm.skr.load as sl
+    import tzenv
+    from kskm.common.config_misc import ResponsePolicy
+    from kskm.common.display import fmt_bundle, fmt_timestamp, format_bundles_for_humans
+
+    obs: dict[str, Any] = {}
+    for name, bundles in sets:
+        obs[f"table:{name}"] = run_impl(lambda: format_bundles_for_humans(bundles), lambda x: list(x))
+    lat = tzenv.lattice()
+    obs["stamps"] = [run_impl(lambda: fmt_timestamp(tzenv.aware(s)), lambda x: x) for _l, s in lat]
+    obs["fmt_bundle"] = [run_impl(lambda: fmt_bundle(b), lambda x: x) for b in dict(sets)["lattice"]]
+    for tag, contents in entry_scheds:
+        obs[f"entry:{tag}"] = _entry_run(tag, contents, config)
+    for d in docs:
+        kind = d["kind"]
+        path = f"/verif-world/tz-{kind}.xml"
+        world = World(path, [d["xml"]])
+        mod = kl if kind == "ksr" else sl
+
+        def conv(q: Any) -> Any:
+            return {"id": q.id, "times": [[lib.dt_us(b.inception), lib.dt_us(b.expiration)] for b in q.bundles], "bundles": [lib.bundle_j(b) for b in q.bundles],
+                    "table": list(format_bundles_for_humans(q.bundles))}
+
+        with capture_logs(mod.__name__) as logs, patched_module(mod, world):
+            if kind == "ksr":
+                out = run_impl(lambda: kl.load_ksr(Path(path), trivial_request_policy(), raise_original=True), conv)
+            else:
+                out = run_impl(lambda: sl.load_skr(Path(path), ResponsePolicy(num_bundles=9, validate_signatures=False)), conv)
+        obs[f"load:{d['name']}"] = {"out": out, "shown": [x[0] for x in shown_digests(logs)]}
+    for what, name, obj in outputs:
+        sub = root / f"tz-{zname.replace('/', '_')}-{what}-{name}"
+        sub.mkdir(parents=True, exist_ok=True)
+        fn = sub / "out.xml"
+        w = _write_once(what, obj, fn)
+        obs[f"output:{what}:{name}"] = {"out": w["out"], "shown": w["shown"], "written": _on_disk(fn)}
+    return obs
+
+
+def stream_tz(res: Result, tier: str, driver_ok: bool, ref: list[tuple[str, str]]) -> None:
+    """ENVIRONMENT INDEPENDENCE (every run, both tiers): what is shown to the operator is a function of the bytes parsed,
+    not of the time zone of the process.  A sub-sample of the table / entry / schedule / output streams runs with the
+    process zone switched (lib.ProcessTZ) to UTC and to each of lib.non_utc_zones(); bundle times run through
+    tzenv.lattice() (January / July, turn of the year, +-1 h around every zone's DST switches).  Each observation is judged
+    by the independent oracle (integer calendar arithmetic on the file's own text read with ElementTree), compared with
+    the UTC run and with the Lean model (which only sees integers)."""
+    import shutil
+
+    import tzenv
+
+    sets = _tz_bundle_sets()
+    docs = _tz_documents()
+    base = KSR_FILE.read_bytes()
+    v = [with_id(base, f"tz-entry-{i}") for i in range(5)]
+    entry_scheds = [("stable", [v[0]]), ("every-op-differs", v)]
+    config = _entry_config()
+    skrs, tas = _output_objects("quick", lib.rng("C17:tz:output"))
+    outputs = [("skr", skrs[0][0], skrs[0][1]), ("ta", tas[-1][0], tas[-1][1])]
+    lat = tzenv.lattice()
+    root = _scratch_dir()
+    runs: dict[str, dict[str, Any]] = {}
+    try:
+        for z in tzenv.all_zones():
+            with tzenv.zone(z) as zname:
+                if not tzenv.local_shift_visible(z):
+                    raise RuntimeError(f"process zone {zname} not in effect")
+                runs[zname] = _tz_observe(ref, sets, docs, entry_scheds, config, outputs, root, zname)
+    finally:
+        shutil.rmtree(root, ignore_errors=True)
+    utc = runs["UTC"]
+
+    # the model's answers (zone-free by construction), asked once
+    lines: list[dict[str, Any]] = []
+    idx: dict[str, int] = {}
+    for name, bundles in sets:
+        idx[f"table:{name}"] = len(lines)
+        lines.append({"op": "format_bundles", "bundles": [lib.bundle_j(b) for b in bundles]})
+    idx["stamps"] = len(lines)
+    lines += [{"op": "iso_utc", "us": s * 10**6} for _l, s in lat]
+    for tag, _c in entry_scheds:
+        idx[f"entry:{tag}"] = len(lines)
+        lines.append(_entry_line(utc[f"entry:{tag}"]))
+    for d in docs:
+        o = utc[f"load:{d['name']}"]["out"]
+        if "ok" in o:
+            idx[f"load:{d['name']}"] = len(lines)
+            lines.append({"op": "format_bundles", "bundles": o["ok"]["bundles"]})
+    for what, name, _obj in outputs:
+        w = utc[f"output:{what}:{name}"]
+        idx[f"output:{what}:{name}"] = len(lines)
+        lines.append({"op": "output_xml", "what": what, "xmlBytes": hexs(w["written"] or b""), "digest": hexs(sha(w["written"] or b"")), "filename": "out.xml"})
+    model = run_driver(lines, exe=DRIVER) if driver_ok else None
+
+    def mdl(item: str, k: int = 0) -> Any:
+        return None if model is None or item not in idx else model[idx[item] + k]
+
+    def differs(case: dict[str, Any], item: str, a: Any, b: Any) -> None:
+        if a != b:
+            res.violation("what is shown to the operator depends on the time zone of the process (same input, run under UTC and under the zone)", case, key=f"tz:{item.split(':')[0]}:differs-from-utc",
+                          first_difference=tzenv.first_difference(a, b))
+
+    for zname, run_ in runs.items():
+        res.bump(f"tz:zone:{zname}")
+        # ---- tables of bundle objects
+        for name, bundles in sets:
+            item = f"table:{name}"
+            case = {"stream": "tz", "zone": zname, "item": item, "bundles": len(bundles)}
+            res.count(case)
+            res.bump("tz:table")
+            out = run_[item]
+            want = independent_table(bundles)
+            if out != {"ok": want}:
+                got = out.get("ok") or []
+                bad = next((i for i in range(max(len(want), len(got))) if i >= len(want) or i >= len(got) or want[i] != got[i]), None)
+                res.violation("format_bundles_for_humans: a row does not list the inception / expiration / key tags of exactly the bundle's keys", case, key="tz:table:row", row=bad,
+                              impl=got[bad] if bad is not None and bad < len(got) else None, expected=want[bad] if bad is not None and bad < len(want) else None,
+                              bundle=None if bad in (None, 0) or bad > len(bundles) else lib.bundle_j(bundles[bad - 1]))
+            differs(case, item, utc[item], out)
+            m = mdl(item)
+            if m is not None and {"ok": m["lines"]} != out:
+                res.disagreement("format_bundles_for_humans: model != implementation", case, out, m["lines"])
+        # ---- single time stamps (KSR-POLICY messages) and the bundle summary of the overlap messages
+        for k, (label, s) in enumerate(lat):
+            case = {"stream": "tz", "zone": zname, "item": "stamp", "instant": label, "seconds": s}
+            res.count(case)
+            res.bump("tz:stamp")
+            got = run_["stamps"][k]
+            if got != {"ok": tzenv.iso_utc(s)}:
+                res.violation("fmt_timestamp: the time shown is not the instant given", case, key="tz:stamp", impl=got, expected=tzenv.iso_utc(s))
+            m = mdl("stamps", k)
+            if m is not None and {"ok": m} != got:
+                res.disagreement("fmt_timestamp: model (isoUtc) != implementation", case, got, m)
+        for k, b in enumerate(dict(sets)["lattice"]):
+            case = {"stream": "tz", "zone": zname, "item": "fmt_bundle", "bundle": b.id}
+            res.count(case)
+            want_fb = "id={} {}->{}".format(b.id[:8], tzenv.iso_utc(lib.dt_us(b.inception) // 10**6)[:10], tzenv.iso_utc(lib.dt_us(b.expiration) // 10**6)[:10])
+            if run_["fmt_bundle"][k] != {"ok": want_fb}:
+                res.violation("fmt_bundle: the dates shown are not those of the bundle", case, key="tz:fmt_bundle", impl=run_["fmt_bundle"][k], expected=want_fb)
+        # ---- the entry point
+        for tag, _c in entry_scheds:
+            item = f"entry:{tag}"
+            case = {"stream": "tz", "zone": zname, "item": item}
+            res.count(case)
+            res.bump("tz:entry")
+            c = run_[item]
+            _entry_judge(res, ref, case, c, mdl(item), keyp="tz:")
+            u = utc[item]
+            differs(case, item, {"printed": u["printed"], "log": u["messages"]}, {"printed": c["printed"], "log": c["messages"]})
+        # ---- files whose times run through the lattice, three lexical forms
+        for d in docs:
+            item = f"load:{d['name']}"
+            case = {"stream": "tz", "zone": zname, "item": item, "document_sha256": hashlib.sha256(d["xml"]).hexdigest()}
+            res.count(case)
+            res.bump(f"tz:load:{d['kind']}:{d['form']}")
+            o = run_[item]
+            out = o["out"]
+            fb = file_bundles(d["xml"])
+            if "ok" not in out:
+                res.violation(f"load_{d['kind']}: a file with UTC bundle times does not load (harness expectation)", case, key="tz:load:flow", impl=out)
+                continue
+            want_times = [[b["inception"] * 10**6, b["expiration"] * 10**6] for b in fb]
+            if out["ok"]["times"] != want_times:
+                bad = next((i for i in range(len(want_times)) if i >= len(out["ok"]["times"]) or out["ok"]["times"][i] != want_times[i]), None)
+                res.violation(f"load_{d['kind']}: the bundle times parsed are not the instants written in the file", case, key="tz:load:parsed-times", bundle=bad,
+                              parsed=None if bad is None or bad >= len(out["ok"]["times"]) else out["ok"]["times"][bad], in_file=None if bad is None else want_times[bad])
+            got_rows = [table_row_fields(x) for x in out["ok"]["table"][1:]]
+            want_rows = file_table_rows(d["xml"])
+            if got_rows != want_rows:
+                bad = next((i for i in range(max(len(got_rows), len(want_rows))) if i >= len(got_rows) or i >= len(want_rows) or got_rows[i] != want_rows[i]), None)
+                res.violation("bundle table: a row does not list the inception / expiration / key tags written in the file parsed", case, key="tz:load:table", row=None if bad is None else bad + 1,
+                              shown=None if bad is None or bad >= len(got_rows) else got_rows[bad], in_file=None if bad is None or bad >= len(want_rows) else want_rows[bad])
+            if o["shown"] != [ref_hex(sha(d["xml"]))]:
+                res.violation(f"load_{d['kind']}: the logged digest is not that of the bytes read", case, key="tz:load:shown", shown=o["shown"])
+            differs(case, item, utc[item], o)
+            m = mdl(item)
+            if m is not None and m["lines"] != out["ok"]["table"]:
+                res.disagreement("format_bundles_for_humans (of the loaded file): model != implementation", case, out["ok"]["table"], m["lines"])
+        # ---- the writers
+        for what, name, _obj in outputs:
+            item = f"output:{what}:{name}"
+            case = {"stream": "tz", "zone": zname, "item": item}
+            res.count(case)
+            res.bump("tz:output")
+            w = run_[item]
+            written = w["written"]
+            if "ok" not in w["out"] or written is None:
+                res.violation("output function failed on a well-formed document (harness expectation)", case, key="tz:output:flow", impl=w["out"])
+                continue
+            if [x[0] for x in w["shown"]] != [ref_hex(sha(written))] or w["shown"][0][1] != ref_words(ref, sha(written)):
+                res.violation("output: the logged digest is not that of the bytes written", case, key=f"tz:output:{what}:digest", shown=[x[0] for x in w["shown"]], on_disk_sha256=ref_hex(sha(written)))
+            if written != utc[item]["written"]:
+                res.violation("the document written depends on the time zone of the process (same object, run under UTC and under the zone)", case, key=f"tz:output:{what}:differs-from-utc",
+                              first_difference=_first_text_diff(utc[item]["written"] or b"", written))
+            m = mdl(item)
+            if m is not None and ([x["data"] for x in m["written"]] != [hexs(written)] or m["shown"] != [x[0] for x in w["shown"]]):
+                res.disagreement("output_xml: model != implementation", case, {"on_disk_sha256": ref_hex(sha(written)), "shown": [x[0] for x in w["shown"]]}, {"shown": m["shown"]})
+    if len(res.samples) < 8:
+        z = lib.non_utc_zones()[1][0]
+        res.sample({"stream": "tz", "zone": z, "table_rows_lattice": (runs[z]["table:lattice"].get("ok") or [])[:3], "zones": list(runs)})
+
+
+def _first_text_diff(a: bytes, b: bytes) -> dict[str, Any]:
+    i = next((k for k in range(min(len(a), len(b))) if a[k] != b[k]), min(len(a), len(b)))
+    return {"offset": i, "utc": a[max(0, i - 40) : i + 40].decode("utf-8", "replace"), "zone": b[max(0, i - 40) : i + 40].decode("utf-8", "replace")}
+
+
 STREAMS = [
     ("words", stream_words),
     ("tool", stream_tool),
@@ -1174,6 +1530,7 @@ STREAMS = [
     ("output", stream_output),
     ("config", stream_config),
     ("table", stream_table),
+    ("tz", stream_tz),
 ]
 
 
@@ -1183,8 +1540,12 @@ def run(tier: str, driver_ok: bool) -> Result:
         "words: all 512 table entries + random octet strings of every length 0..64 + long ones, 4 functions each, three-way; "
         "tool: file and stdin mode at the regression script's sizes; schedule: 16 named + random schedules of content per operation "
         "for load_ksr and load_skr (one open / one read / digest = xml_hash = sha256 of the bytes served / parsed id = id in those bytes / size gate); "
-        "entry: ksrsigner() to its prompt over 4 schedules; output: every archived SKR and generated trust anchors, to file and to stdout; "
+        "entry: ksrsigner() to its prompt over 4 schedules; output: every archived SKR, a one-bundle SKR and generated trust anchors (incl. validity with non-UTC offsets), to stdout and to a real path that "
+        f"beforehand is {' / '.join(PRE_STATES)} (digest logged = digest of the octets on disk afterwards, read with plain open; file = the document); "
         "config: get_config over 4 schedules; table: archived and random bundles (flags incl. non-standard, µs, years 1..9999); "
+        "tz: tables, fmt_timestamp / fmt_bundle, load_ksr / load_skr of files whose bundle times run through the DST lattice of harness/tzenv.py in the forms +00:00 / Z / no designator, "
+        "ksrsigner() to its prompt (stdout + every log record), both writers — each with the PROCESS time zone switched to "
+        f"{', '.join(z[0] for z in lib.TZ_ZONES)}, judged by the file's own text, the UTC run and the model; "
         "non-trivial = distinct (stream, input) pair"
     )
     ref = reference_table()
